@@ -89,7 +89,15 @@ impl PathData {
                 .as_ref()
                 .filter(|_| allow_mtud)
                 .map_or_else(
-                    || MtuDiscovery::disabled(config.get_initial_mtu(), config.min_mtu),
+                    || {
+                        let mut mtud =
+                            MtuDiscovery::disabled(config.get_initial_mtu(), config.min_mtu);
+                        // The peer's limit binds us even when we don't probe for a larger MTU
+                        if let Some(size) = peer_max_udp_payload_size {
+                            mtud.on_peer_max_udp_payload_size_received(size);
+                        }
+                        mtud
+                    },
                     |mtud_config| {
                         MtuDiscovery::new(
                             config.get_initial_mtu(),
